@@ -168,6 +168,13 @@ def run_check(pid: str, tier: str, seed: int, jobs: int, replay: str | None = No
             # a lost worker is never a verdict - and never ignored: what it would have observed is unknown
             if len(agg["lost"]) > 0:
                 inconclusive.append(f"{len(agg['lost'])} of {agg['batches']} workers lost: {agg['lost'][0][:120]} ... {agg['lost'][0][-1200:]}")
+                try:
+                    # keep every lost worker's stderr for diagnosis (the message above shows the first one only)
+                    os.makedirs(os.path.join(str(VERIF), "out"), exist_ok=True)
+                    with open(os.path.join(str(VERIF), "out", f"{pid}-lost-workers.txt"), "w") as fh:
+                        fh.write("\n\n=====\n".join(agg["lost"]))
+                except OSError:
+                    pass
 
     # ---- evidence
     wall = time.time() - t0
